@@ -62,3 +62,30 @@ func VH_C11_two_cycles(k1, k2, wake1 int) {
 	}
 	vAssert(ok, "C11.second_cycle_delivers_only_its_own_packets")
 }
+
+// VH_C11_race(bound): a broker PUBLISH (handled by the broker-side receive
+// goroutine) races with the wake-up PINGREQ (handled by the client-side receive
+// goroutine), pre-emptively interleaved with context bound `bound`. Whichever
+// way the race goes, the message reaches the client exactly once - in this
+// wake-up or in the next one - and each wake-up ends with one PINGRESP.
+func VH_C11_race(bound int) {
+	x := vC11Handler()
+	vAssume(x.feedSN(snPkts1.NewDisconnect(60)) == nil)
+	x.sn.take()
+	e := vC11Pick(0)
+	d1, d2 := false, false
+	vOnTaskPanic("C11.race_no_panic")
+	vPreempt(bound)
+	vGo(func() { x.feedMQ(e.packet()); d1 = true })
+	vGo(func() { x.feedSN(snPkts1.NewPingreq([]byte("c"))); d2 = true })
+	vRunUntilIdle()
+	vPreempt(0)
+	vAssume(vAnd(d1, d2))
+	// the next wake-up
+	vAssume(x.feedSN(snPkts1.NewPingreq([]byte("c"))) == nil)
+	out := x.sn.take()
+	vReach("C11.race_done")
+	vAssert(vCountSN(out, vtPUBLISH) == 1, "C11.race_message_delivered_once")
+	vAssert(vCountSN(out, vtPINGRESP) == 2, "C11.race_each_wakeup_answered")
+	vAssert(vRaces() == 0, "C11.race_free")
+}
